@@ -121,3 +121,28 @@ CLAIMED["C17"] = {
 }
 
 NOT_YET = {}
+
+# --- source tie (second translator, DESIGN §13.6): literal constants regenerated from /repo's sources on every run -------
+SOURCE_TIE = {
+    "C01": "the accepted word counts (SourceTie.mnemonic_lengths)",
+    "C12": "the accepted word counts (SourceTie.mnemonic_lengths)",
+    "C02": "the PBKDF2 round count and the salt prefix text (SourceTie.seed_rounds)",
+    "C03": "the hardened bit and the master HMAC key (SourceTie.hardened_bit, master_key)",
+    "C14": "the default path text of Path::for_index (SourceTie.default_path)",
+    "C16": "the default path text of Path::for_index (SourceTie.default_path)",
+    "C07": "the RLP short-form limit, long-form bias, string/list offsets and single-byte limit (SourceTie.rlp_short, rlp_long, rlp_list_offset, rlp_bytes_consts)",
+    "C11": "the v offsets 27 and 35 and the factor 2 (SourceTie.sig_v_legacy, sig_v_eip155)",
+    "C15": "the two accepted v bytes of the signature parser (SourceTie.sig_parse_v)",
+    "C06": "the transaction type bytes (SourceTie.tx_type_2930, tx_type_1559)",
+    "C10": "the message prefix bytes (SourceTie.msg_prefix)",
+    "C08": "the 0x19 0x01 prefix, the domain type name and the bytesN/uintN/intN width guards (SourceTie.td_prefix, kind_*_range)",
+    "C20": "the DOMAIN_MEMBERS table, names, kinds and order (SourceTie.domain_members)",
+}
+for _pid, _what in SOURCE_TIE.items():
+    CLAIMED[_pid]["text"] += (" Source tie: " + _what + " are REGENERATED from /repo's Rust sources on every run (vlib/srctie.py -> Gen/SourceConsts.lean) "
+                              "and the theorem states that the model function mirroring that site behaves as the code does with exactly the extracted values, so a "
+                              "changed constant breaks a proof obligation even where no generated input reaches it; a pattern that is no longer found leaves the theorem "
+                              "vacuous and is listed in the evidence (coverage.source_tie.patterns_not_found).")
+    if "regenerated" not in CLAIMED[_pid]["technique"]:
+        CLAIMED[_pid]["technique"] = CLAIMED[_pid]["technique"].replace(
+            "over a hand-written model", "over a hand-written model + source constants regenerated from the Rust sources into Lean on every run", 1)
